@@ -1364,7 +1364,12 @@ def default_inline_policy(crate):
     ok = set()
     for fid, n in sites.items():
         f = crate.bodies[fid]
-        if n != 1 or f.kind == "Closure" or f.vis == "pub" or f.impl_trait:
+        if f.kind == "Closure" or f.vis == "pub" or f.impl_trait:
+            continue
+        # tiny private accessors (`fn best(&self, id) -> &T { &self.map[&id] }`) are looked through wherever they are called
+        live = [bl for bl in f.blocks if not bl["cleanup"]]
+        accessor = not any(bl["term"]["k"] == "switch" for bl in live) and sum(1 for bl in live if bl["term"]["k"] == "call") <= 1 and f.argc <= 2 and not any(f.local_ty(l).startswith("&mut") for l in range(1, f.argc + 1))
+        if n != 1 and not accessor:
             continue
         if any(c.callee and c.callee.target == fid for c in f.all_calls()):
             continue
